@@ -836,6 +836,17 @@ where
         let num_betas = opening_proof.commit_phase_commits.len();
         let num_queries = opening_proof.query_proofs.len();
 
+        // `get_challenges_circuit` samples one beta per (commitment, PoW witness) pair; a proof
+        // with fewer witnesses than commitments yields fewer betas than `num_betas`.
+        if opening_proof.commit_pow_witnesses.len() != num_betas || challenges.len() < 1 + num_betas
+        {
+            return Err(VerificationError::InvalidProofShape(format!(
+                "FRI proof has {num_betas} commit-phase commitments but {} PoW witnesses / {} challenges",
+                opening_proof.commit_pow_witnesses.len(),
+                challenges.len()
+            )));
+        }
+
         let alpha = challenges[0];
         let betas = &challenges[1..1 + num_betas];
 
@@ -1235,6 +1246,14 @@ where
         let fri_proof = &opening_proof.inner_proof;
         let num_betas = fri_proof.commit_phase_commits.len();
         let num_queries = fri_proof.query_proofs.len();
+
+        if fri_proof.commit_pow_witnesses.len() != num_betas || challenges.len() < 1 + num_betas {
+            return Err(VerificationError::InvalidProofShape(format!(
+                "FRI proof has {num_betas} commit-phase commitments but {} PoW witnesses / {} challenges",
+                fri_proof.commit_pow_witnesses.len(),
+                challenges.len()
+            )));
+        }
 
         let alpha = challenges[0];
         let betas = &challenges[1..1 + num_betas];
